@@ -391,3 +391,28 @@ Example C13_two_subrequests_example :
   let '(st', r) := seq (run_request 1 1 sc true) (run_request 1 1 sc false) (init_state [0%N]) in
   stk st' = [0%N] /\ length (filter (is_pt P_FIN_CB) (log st')) = 2%nat.
 Proof. vm_compute. repeat split; reflexivity. Qed.
+
+(* ================= third proof-only round *)
+Require Import Verif.Proofs.C13_h.
+
+(* ANY list of real subrequests (any valid scenario trees, each with or without tweens) started one after the other
+   from any state: thread-local stack, parent's deques and counters as before, only deeper events, and the new log is
+   a sequence of segments each satisfying the judge of one of the listed subrequest trees; also when one of them
+   raises (the rest is then not started) *)
+Theorem C13_subrequests_in_a_row : forall ev l (specs : list (scn * bool)) st st' r,
+  Forall (fun p => valid_tree (fst p) = true) specs ->
+  seq_all (sub_runs ev l specs) st = (st', r) ->
+  exists new, log st' = log st ++ new /\ stk st' = stk st /\
+    rq st' = rq st /\ fq st' = fq st /\ nr st' = nr st /\ nf st' = nf st /\
+    Forall (fun e => (l + 1 <= e_lvl e)%N) new /\
+    star (some_subP l specs) new.
+Proof. exact many_run_requests. Qed.
+Print Assumptions C13_subrequests_in_a_row.
+
+Example C13_subrequests_in_a_row_example :
+  let sc := Scn true [] [mkReg P_VIEW 3 0] NoSub in
+  let specs := [(sc, true); (sc, false); (sc, true)] in
+  Forall (fun p => valid_tree (fst p) = true) specs /\
+  let '(st', r) := seq_all (sub_runs 1 0 specs) (init_state [0%N]) in
+  r = Ok 0%N /\ stk st' = [0%N] /\ length (filter (is_pt P_FIN_CB) (log st')) = 3%nat.
+Proof. split; [repeat constructor|vm_compute; repeat split; reflexivity]. Qed.
